@@ -112,6 +112,12 @@ func (a *aggregate) Next(ctx context.Context) ([]model.StepVector, error) {
 		return nil, err
 	}
 	if in == nil {
+		// Evaluate the parameter to its end: an error in it fails the query.
+		if a.paramOp != nil {
+			if err := model.Drain(ctx, a.paramOp, nil); err != nil {
+				return nil, err
+			}
+		}
 		return nil, nil
 	}
 	defer a.next.GetPool().PutVectors(in)
